@@ -66,6 +66,9 @@ class World:
         os.mkdir(self.home)
         self.old_home = os.environ.get("HOME")
         os.environ["HOME"] = self.home
+        # (SchemaP binds `name` to this variable; it is set, and empty)
+        self.old_nv = os.environ.get("NV")
+        os.environ["NV"] = ""
         # the default key path is computed when the class is created: point it into the scratch home
         self.old_default = cinco.Config.DEFAULT_CINCOKEY_FILEPATH
         cinco.Config.DEFAULT_CINCOKEY_FILEPATH = os.path.join(self.home, ".cincokey")
@@ -77,6 +80,10 @@ class World:
 
     def close(self):
         self.cinco.Config.DEFAULT_CINCOKEY_FILEPATH = self.old_default
+        if self.old_nv is None:
+            os.environ.pop("NV", None)
+        else:
+            os.environ["NV"] = self.old_nv
         if self.old_home is None:
             os.environ.pop("HOME", None)
         else:
@@ -242,6 +249,12 @@ class World:
                 if ev["v"]["t"] == "cfgobj" or (ev["v"]["t"] == "list" and any(i.get("t") == "cfgobj" for i in codec.seq(ev["v"]["l"]))):
                     factory = cfgadapter.schema_field(cinco, self.schema, list(codec.seq(ev["p"])) + [ev["k"]])
                 setattr(target, ev["k"], cfgadapter.value_to_py(cinco, ev["v"], factory, self.root))
+            elif op == "Adopt":
+                other = cinco.Config(self.schema, key_filename=os.path.join(self.root, "kother"))
+                other.items = [{"u": "o", "pw": "adoptpw#1"}]
+                self.plaintexts.add("adoptpw#1")
+                self.keep_alive = other
+                self.cfg.items = [other.items[0]]
             elif op == "RoundTrip":
                 fmt = ev["fmt"]
                 with self.watch_open():
@@ -362,7 +375,7 @@ def driver(cinco, desc, seed, n_traces, length):
                     elif key == "dl":
                         v = {"t": "list", "l": [{"t": "int", "i": rng.randint(0, 9)} for _ in range(rng.randint(0, 3))]}
                     elif key in ("pw", "tok", "sec"):
-                        v = rng.choice([S(rnd_text(rng, 6, 14, edge=False)), S(rnd_text(rng, 30, 70, edge=False)), S(rnd_text(rng, 16, 16, edge=False)),
+                        v = rng.choice([S(rnd_text(rng, 6, 14, edge=False)), S(rnd_text(rng, 30, 70, edge=False)), S(rnd_text(rng, 16, 16, edge=False)), S(rng.choice([" ", "\t ", "  "])),
                                         S(rnd_text(rng, 32, 32, edge=False)), S(""), {"t": "none"}])
                     elif key == "hash":
                         v = S(rnd_text(rng, 6, 10, edge=False))
@@ -373,7 +386,7 @@ def driver(cinco, desc, seed, n_traces, length):
                     elif key == "sl":
                         v = {"t": "list", "l": [S(rnd_text(rng, 6, 10, edge=False)) if rng.random() < 0.8 else S("") for _ in range(rng.randint(0, 3))]}
                     elif key == "dd":
-                        v = {"t": "dict", "kv": [[S(k), B(rng.randint(0, 5), rng)] for k in rng.sample(["k1", "k2", "zz"], rng.randint(0, 3))]}
+                        v = {"t": "dict", "kv": [[S(k), B(rng.randint(0, 5), rng)] for k in rng.sample(["k1", "k2", "zz", "a-b", "a.b", "a_b"], rng.randint(0, 3))]}
                     elif key == "vault":
                         v = D(sec=S(rnd_text(rng, 6, 10, edge=False)))
                     elif key in ("port", "n"):
@@ -381,6 +394,8 @@ def driver(cinco, desc, seed, n_traces, length):
                     elif key in ("items", "sitems"):
                         v = {"t": "list", "l": [D(u=S(rnd_text(rng, 0, 5)), pw=S(rnd_text(rng, 6, 10, edge=False))) if rng.random() < 0.7 else D(u=S("u")) for _ in range(rng.randint(0, 3))]}
                     ev = {"op": "Set", "p": p, "k": key, "v": v}
+                elif r < 0.64:
+                    ev = {"op": "Adopt"}
                 elif r < 0.85:
                     ev = {"op": "RoundTrip", "fmt": rng.choice(["json", "yaml", "bson", "xml", "pickle"])}
                 else:
